@@ -1,6 +1,8 @@
 """C05: output IR is closed, well-formed and serializable, even on failure."""
 import traceback
 
+import gtirb
+
 from .. import irsan, oracles, rewrite
 from .. import gen_rewrite
 from . import rwbase
@@ -24,7 +26,7 @@ RULE = (
     "snapshot), no symbol stranded without referent, still serializable. "
     "non-trivial = at least one sanitizer pass on a rewritten module; "
     "distinct = shape signature x number of fault points."
-    " Patches may carry real alignment directives; 40% of the modules have alignment entries on input blocks; zero-sized input blocks as in C01; in 40% every unknown return target is one shared proxy."
+    " Patches may carry real alignment directives; 40% of the modules have alignment entries on input blocks; zero-sized input blocks as in C01; in 40% every unknown return target is one shared proxy; 30% of the ELF modules designate DT_INIT/DT_FINI blocks, which must name the code where the block's first label is afterwards."
 )
 ASSUMPTIONS = [
     "faults are injected only at patch callbacks (as the property says)",
@@ -48,7 +50,52 @@ def gen_case(rng, tier, index):
         from . import c06
         case["newfuncs"] = [c06.new_function(rng, case, k)
                             for k in range(rng.choice([1, 1, 2]))]
+    if case["fmt"] == "elf" and rng.random() < 0.3:
+        # DT_INIT / DT_FINI: blocks the loader calls (elfDynamicInit /
+        # elfDynamicFini tables); like the entry point they follow their
+        # block's code
+        code = [b for s in case["secs"] for iv in s["ivs"]
+                for b in iv["blocks"] if b["code"] and b["items"]
+                and b["labels"]]
+        if code:
+            case["dyn_init"] = rng.choice(code)["id"]
+            case["dyn_fini"] = rng.choice(code)["id"]
     return case
+
+
+DYN_TABLES = (("dyn_init", "elfDynamicInit"), ("dyn_fini", "elfDynamicFini"))
+
+
+def check_dyn_tables(case, r, viol, ctr):
+    """
+    The init / fini tables name the code that stands where the designated
+    block's first label now is (judged when that label still resolves to
+    the start of a code block; a label that went to a proxy, to data or to
+    the end of a block is only counted).
+    """
+    m = r.bu.module
+    info = {b["id"]: b for s in case["secs"] for iv in s["ivs"]
+            for b in iv["blocks"]}
+    for ck, tname in DYN_TABLES:
+        if case.get(ck) is None:
+            continue
+        sym = r.bu.symbols.get(info[case[ck]]["labels"][0])
+        ref = sym.referent if sym is not None else None
+        if not isinstance(ref, gtirb.CodeBlock) or sym.at_end or \
+                ref.module is not m:
+            ctr["dyn_tables_unjudged"] = ctr.get("dyn_tables_unjudged",
+                                                 0) + 1
+            continue
+        ctr["dyn_tables_checked"] = ctr.get("dyn_tables_checked", 0) + 1
+        t = m.aux_data.get(tname)
+        blk = t.data if t is not None else None
+        if not isinstance(blk, gtirb.CodeBlock) or blk.module is not m:
+            viol.append({"key": f"dyn:{tname}:lost",
+                         "msg": f"{blk!r}"[:200]})
+        elif blk.address != ref.address:
+            viol.append({"key": f"dyn:{tname}:not-where-its-code-is",
+                         "msg": f"{blk.address:#x} vs label at "
+                                f"{ref.address:#x}"})
 
 
 def zero_block_context(case, r, block):
@@ -153,6 +200,10 @@ def run_case(case):
         if case.get("align_seed") is not None:
             from . import c10
             ctr["aligned_input_blocks"] = c10.apply_auto_align(case, r.bu)
+        for ck, tname in DYN_TABLES:
+            if case.get(ck) is not None:
+                r.bu.module.aux_data[tname] = gtirb.AuxData(
+                    r.bu.blocks[case[ck]], "UUID")
         state["snap"] = irsan.Snapshot(r.bu.module)
         # (under PassManager this runs inside the manager's return-cache
         # context, where ir.cfg already is the cache: the caller's object is
@@ -193,6 +244,7 @@ def run_case(case):
                 k += zero_block_context(case, r, item[2])
             viol.append({"key": k, "msg": m})
         ctr["sanitizer_passes"] += 1
+        check_dyn_tables(case, r, viol, ctr)
         # fault enumeration
         kinds = ["raise"]
         for k in range(1, min(n, MAXK) + 1):
